@@ -56,6 +56,7 @@ def parseKey (s : String) : Option Key :=
   let body := (s.drop 1).toString
   match s.toList.head? with
   | some 's' => (parseBytes body).map .str
+  | some 'c' => (parseBytes body).map .str      -- the same text passed in a char[24] buffer
   | some 'i' => (parseInt body).map .int
   -- request keys passed to the scope as int32_t (`j`) / uint64_t (`u`): the same mathematical integer
   | some 'j' => (parseInt body).bind fun v => if -2147483648 ≤ v ∧ v < 2147483648 then some (.int v) else none
